@@ -145,6 +145,7 @@ type env struct {
 	byPath  map[string]int // normalised href path -> resource index
 	refs    map[int]*reference
 	cleanup func()
+	addr    string // TCP address of the wire server, started on demand
 }
 
 func (e *env) close() {
